@@ -21,36 +21,41 @@ Record cnode := { n_key : string; n_name : string; n_cond : bool; n_sub : option
 Definition type_applies (S : schema) (rt tcond : string) : bool :=
   String.eqb rt tcond || mem rt (possible_types S tcond).
 
+Definition cnode_of (under : bool) (al : option string) (n : string) (c : bool) (sub : option (list sel))
+  : cnode :=
+  {| n_key := match al with Some a => a | None => n end; n_name := n; n_cond := under || c; n_sub := sub |}.
+
+(* one selection; [rec under' sels'] collects a fragment body *)
+Definition collect_step (rec : bool -> list sel -> option (list cnode)) (S : schema) (frs : list fragdef)
+           (rt : string) (under : bool) (acc : option (list cnode)) (s : sel) : option (list cnode) :=
+  match acc with
+  | None => None
+  | Some l =>
+      match s with
+      | SField al n c _ sub => Some (l ++ [cnode_of under al n c sub])
+      | SSpread fn c =>
+          match lookup_frag frs fn with
+          | None => None
+          | Some f =>
+              if type_applies S rt (fr_on f)
+              then match rec (under || c) (fr_sel f) with
+                   | Some l' => Some (l ++ l') | None => None end
+              else Some l
+          end
+      | SInline tc c sub =>
+          if (match tc with None => true | Some t => type_applies S rt t end)
+          then match rec (under || c) sub with
+               | Some l' => Some (l ++ l') | None => None end
+          else Some l
+      end
+  end.
+
 (* CollectFields for runtime object type rt, flattening fragments that apply *)
 Fixpoint collect (fuel : nat) (S : schema) (frs : list fragdef) (rt : string) (under : bool)
          (sels : list sel) : option (list cnode) :=
   match fuel with
   | O => None
-  | S fuel' =>
-      fold_left (fun acc s =>
-        match acc with
-        | None => None
-        | Some l =>
-            match s with
-            | SField al n c _ sub =>
-                Some (l ++ [{| n_key := match al with Some a => a | None => n end; n_name := n;
-                               n_cond := under || c; n_sub := sub |}])
-            | SSpread fn c =>
-                match lookup_frag frs fn with
-                | None => None
-                | Some f =>
-                    if type_applies S rt (fr_on f)
-                    then match collect fuel' S frs rt (under || c) (fr_sel f) with
-                         | Some l' => Some (l ++ l') | None => None end
-                    else Some l
-                end
-            | SInline tc c sub =>
-                if (match tc with None => true | Some t => type_applies S rt t end)
-                then match collect fuel' S frs rt (under || c) sub with
-                     | Some l' => Some (l ++ l') | None => None end
-                else Some l
-            end
-        end) sels (Some [])
+  | S fuel' => fold_left (collect_step (collect fuel' S frs rt) S frs rt under) sels (Some [])
   end.
 
 Definition collect_scopes (fuel : nat) (S : schema) (frs : list fragdef) (rt : string) (scs : list scope)
@@ -113,28 +118,34 @@ Definition conf_key (rec : gtype -> list scope -> json -> bool) (S : schema) (rt
       end
   end.
 
-Definition conf_obj_with (rec : gtype -> list scope -> json -> bool) (S : schema) (rt : string)
-           (nodes : option (list cnode)) (kv : list (string * json)) : bool :=
+(* [extra_ok]: response keys outside the collected set are tolerated (false for GraphQL conformance;
+   true describes what a pydantic model with extra=ignore can at best enforce, see Properties/C05.v) *)
+Definition conf_obj_gen (extra_ok : bool) (rec : gtype -> list scope -> json -> bool) (S : schema)
+           (rt : string) (nodes : option (list cnode)) (kv : list (string * json)) : bool :=
   match nodes with
   | None => false
   | Some nodes =>
       let keys := keys_in_order nodes [] in
-      forallb (fun k => mem (fst k) keys) kv && forallb (conf_key rec S rt nodes kv) keys
+      (extra_ok || forallb (fun k => mem (fst k) keys) kv) && forallb (conf_key rec S rt nodes kv) keys
   end.
 
-(* CompleteValue *)
-Fixpoint conf_val (fuel : nat) (S : schema) (frs : list fragdef) (t : gtype) (scs : list scope) (j : json)
+Definition conf_obj_with := conf_obj_gen false.
+
+(* CompleteValue, parametric in the leaf-value predicate [leafp] and in [extra_ok] *)
+Fixpoint conf_val_gen (leafp : schema -> string -> tdef -> json -> bool) (extra_ok : bool)
+         (fuel : nat) (S : schema) (frs : list fragdef) (t : gtype) (scs : list scope) (j : json)
   : bool :=
   match fuel with
   | O => false
   | S fuel' =>
       let conf_obj (rt : string) (kv : list (string * json)) : bool :=
-        conf_obj_with (conf_val fuel' S frs) S rt (collect_scopes fuel' S frs rt scs) kv in
+        conf_obj_gen extra_ok (conf_val_gen leafp extra_ok fuel' S frs) S rt
+                     (collect_scopes fuel' S frs rt scs) kv in
       match t with
-      | TNonNull t' => match j with JNull => false | _ => conf_val fuel' S frs t' scs j end
+      | TNonNull t' => match j with JNull => false | _ => conf_val_gen leafp extra_ok fuel' S frs t' scs j end
       | TList t' => match j with
                     | JNull => true
-                    | JArr l => forallb (conf_val fuel' S frs t' scs) l
+                    | JArr l => forallb (conf_val_gen leafp extra_ok fuel' S frs t' scs) l
                     | _ => false end
       | TNamed n =>
           match j with
@@ -146,17 +157,23 @@ Fixpoint conf_val (fuel : nat) (S : schema) (frs : list fragdef) (t : gtype) (sc
                   match j with
                   | JObj kv => existsb (fun rt => conf_obj rt kv) (possible_types S n)
                   | _ => false end
-              | Some d => leaf_conf S n d j
+              | Some d => leafp S n d j
               | None => false
               end
           end
       end
   end.
 
+(* the conformant responses: GraphQL's leaf coercion results, no extra keys *)
+Definition conf_val := conf_val_gen leaf_conf false.
+
 (* the data member of a response to an operation whose root type is root *)
-Definition conf_op (fuel : nat) (S : schema) (frs : list fragdef) (root : string) (sels : list sel) (j : json)
+Definition conf_op_gen (leafp : schema -> string -> tdef -> json -> bool) (extra_ok : bool)
+           (fuel : nat) (S : schema) (frs : list fragdef) (root : string) (sels : list sel) (j : json)
   : bool :=
   match j with
   | JNull => false
-  | _ => conf_val fuel S frs (TNonNull (TNamed root)) [(false, sels)] j
+  | _ => conf_val_gen leafp extra_ok fuel S frs (TNonNull (TNamed root)) [(false, sels)] j
   end.
+
+Definition conf_op := conf_op_gen leaf_conf false.
